@@ -685,6 +685,13 @@ func main() {
 		fragStatus[k] = v
 	}
 	// trans3 end
+	// trans5: queue/lqueue.go, stack/lstack.go over the DSeq contract (frag_linked.go)
+	linkedLean, linkedStatus := translateLinked()
+	writeIfChanged(filepath.Join(outDir, "Linked.lean"), linkedLean)
+	for k, v := range linkedStatus {
+		fragStatus[k] = v
+	}
+	// end trans5
 	if len(os.Args) > 3 {
 		b, _ := json.MarshalIndent(map[string]any{"lockTable": tab, "effects": effs, "consts": cs, "regeneratedFunctions": fragStatus}, "", " ")
 		writeIfChanged(os.Args[3], string(b)+"\n")
